@@ -259,9 +259,9 @@ func cmdCheck(args []string) int {
 		fmt.Printf("UNDECIDED: /repo does not load (%v)\n", truncate(err.Error(), 300))
 		return 2
 	}
-	opts := solveOpts{timeout: 10 * time.Second, models: true}
+	opts := solveOpts{timeout: 30 * time.Second, models: true}
 	if *tier == "thorough" {
-		opts.timeout = 60 * time.Second
+		opts.timeout = 120 * time.Second
 	}
 	res := runProperty(P, *prop, pd, opts)
 	known := loadKnown()
